@@ -27,12 +27,15 @@ ProofEq == {[Blank EXCEPT !.kind = "proofeq", !.val = c, !.n = n] : c \in {"same
 Fr      == {[Blank EXCEPT !.kind = "fr", !.val = f, !.val2 = v, !.rep = r] : f \in {"lex", "cmp", "bit", "bigint", "string", "iface"}, v \in CVals, r \in Reps(2, 30)}
            \cup {[Blank EXCEPT !.kind = "fr", !.val = "cmp", !.val2 = v, !.rep = r] : v \in CVals, r \in 1 .. 13}      \* every second operand class
            \cup {[Blank EXCEPT !.kind = "fr", !.val = "random", !.val2 = "0", !.rep = r] : r \in Reps(3, 200)}
-FrC15   == {c \in Fr : c.val \in {"lex", "cmp", "bigint"}}
+Pats(pre) == {pre \o a \o b \o c \o d : a \in {"m", "e", "p"}, b \in {"m", "e", "p"}, c \in {"m", "e", "p"}, d \in {"m", "e", "p"}}
+FrPats  == {[Blank EXCEPT !.kind = "fr", !.val = "lex", !.val2 = v, !.rep = 1] : v \in Pats("H:")}
+           \cup {[Blank EXCEPT !.kind = "fr", !.val = "cmp", !.val2 = v, !.rep = r] : v \in Pats("L:"), r \in {1, 4}}
+FrC15   == {c \in Fr : c.val \in {"lex", "cmp", "bigint"}} \cup FrPats
 
 Cases == IF Part = "c05" THEN Crs \cup Precomp \cup Ext
          ELSE IF Part = "c10" THEN ProofEq
          ELSE IF Part = "c15" THEN FrC15
-         ELSE Powers \cup Crs \cup Precomp \cup PrecompBad \cup Ext \cup Unsafe \cup OnCurve \cup Uncio \cup ProofEq \cup Fr
+         ELSE Powers \cup Crs \cup Precomp \cup PrecompBad \cup Ext \cup Unsafe \cup OnCurve \cup Uncio \cup ProofEq \cup Fr \cup FrPats
 VARIABLE done
 Init == done = FALSE
 Next == ~done /\ done' = ndJsonSerialize(Out, SetToSeq(Cases))
